@@ -36,6 +36,15 @@ def run_generic(pid, tier, seed, mk_runs, which, nq, nt, rule):
                 p["recursive"] = p["recursive"]
             p["runs"] = mk_runs(ck.rng)
             ps.append(p)
+        if k == 0 and pid == "C09":   # fixed regression cases (replays of earlier findings)
+            import os
+            rd = os.path.join(vlib.ROOT, "tools", "regress")
+            for f in sorted(os.listdir(rd)):
+                if f.startswith("c09_"):
+                    q = json.load(open(os.path.join(rd, f)))
+                    q["runs"] = [{"kind": "td", "dom": d, "max_cc": mcc, "exact": ex, "rec": 0, "wd": 1, "desc": 1, "th": 0}
+                                 for d in ("intervals", "split_dbm") for mcc in (-1, 1, 2) for ex in (0, 1)]
+                    ps.append(q)
         viols, merged, timeouts = intersound.explore(ck, "b%d" % k, ps)
         ck.cov["distinct_nontrivial"] += sum(1 for p in merged for r in p["runs"] if r["err"] == 0 and
                                              any(o["bot"] == 0 and o["top"] == 0 for f in r["funcs"][1:] for o in f["pre"]))
